@@ -35,6 +35,5 @@ void meta_reader_refs(const void *o, const void **file, const void **cmp)
 void shape_meta_reader(const void *o, FILE *f)
 {
 	const sqfs_meta_reader_t *a = o;
-	fprintf(f, "rc=%zu file=%zu cmp=%zu", a->base.refcount,
-		((sqfs_object_t *)a->file)->refcount, ((sqfs_object_t *)a->cmp)->refcount);
+	fprintf(f, "rc=%zu", a->base.refcount);
 }
